@@ -32,13 +32,13 @@ var c13PoolExprs = []string{
 	`""`, `"a"`, `"abc"`, `"0"`, `"-1"`, `"1e999"`, `"\u0000"`, `"日本😀"`, `"%"`, `"[("`, `"probe"`, `"mp3"`, `"nope"`, `("ab" * 32768)`,
 	`("ff80fe" | from_hex)`, `("ff80fe" | from_hex | tobits | .[1:14])`, `("a" | tobits | .[0:1])`, `("" | tobytes)`, `("abcd" | tobytes)`,
 	`[]`, `[[]]`, `[0,256]`, `[null]`, `[1,2,3]`, `["a","b"]`, `[[0,1],[2]]`, `[-1]`, `[1e308]`, `[{}]`,
-	`{}`, `{"a":1}`, `{"a":{"b":[1,"x",null]}}`, `{"":null}`,
+	`{}`, `{"a":1}`, `{"a":{"b":[1,"x",null]}}`, `{"":null}`, `{"":"a"}`, `{"a":{"b":1}}`,
 	`$dv`, `$dv.headers`, `$dv.frames[0].header.bitrate`, `$dv.frames[0].audio_data`, `$dv.frames[0].header`, `first($dv | .. | select(type=="boolean"))`,
 }
 
 // option objects with missing, mistyped, negative, zero and huge members
 var c13OptExprs = []string{
-	`{indent:-1}`, `{indent:-3}`, `{indent:0}`, `{indent:1048576}`, `{indent:"x"}`, `{indent:1.5}`, `{indent:null}`,
+	`{indent:-1}`, `{indent:-3}`, `{indent:0}`, `{indent:1048576}`, `{indent:1e18}`, `{indent:"x"}`, `{indent:1.5}`, `{indent:null}`,
 	`{comma:""}`, `{comma:"ab"}`, `{comma:1}`, `{comment:""}`, `{comment:"##"}`,
 	`{bits_format:"x"}`, `{bits_format:1}`, `{bits_format:"md5"}`,
 	`{line_bytes:-5}`, `{line_bytes:0}`, `{line_bytes:100000}`, `{display_bytes:-1}`, `{display_bytes:1e18}`,
@@ -46,16 +46,17 @@ var c13OptExprs = []string{
 	`{addrbase:1}`, `{addrbase:0}`, `{addrbase:-2}`, `{addrbase:99}`, `{sizebase:0}`, `{sizebase:1}`, `{sizebase:37}`,
 	`{force:"x"}`, `{seq:1}`, `{array:"x"}`, `{attribute_prefix:""}`, `{skip_gaps:1}`, `{encoding:"nope"}`, `{encoding:1}`, `{multi_document:"x"}`,
 	`{color:true, colors: {}}`, `{colors: 1}`, `{byte_colors: [{ranges:[[5,1]], value:"x"}]}`, `{byte_colors: 1}`, `{unicode:"x"}`, `{verbose:1}`,
-	`{keep_range:1, unit:3, pad_to_units:-1}`, `{flags:"x"}`, `{max_array_size:-1}`,
+	`{keep_range:1, unit:3, pad_to_units:-1}`, `{unit:0, keep_range:false, pad_to_units:0}`, `{unit:8, keep_range:true, pad_to_units:-5}`, `{unit:-8, keep_range:false, pad_to_units:1e18}`, `{flags:"x"}`, `{max_array_size:-1}`,
 }
 
 var c13Excluded = map[string]string{
 	"repl": "starts an interactive REPL", "slurp": "REPL variable binding by design", "help": "interactive help", "paste": "reads stdin until EOF",
 	"input": "consumes inputs", "inputs": "consumes inputs", "open": "opens files (C01/C05)", "halt": "terminates by design", "halt_error": "terminates by design",
+	"_global_state": "replaces the interpreter-global state (option stack) by design", "_readline": "interactive", "_registry": "huge constant output",
 	"debug": "standard jq (not added by fq)", "stderr": "standard jq", "input_filename": "standard jq",
 }
 
-var c13NameRe = regexp.MustCompile(`^([a-zA-Z][a-zA-Z0-9_]*)/(\d+)$`)
+var c13NameRe = regexp.MustCompile(`^([a-zA-Z_][a-zA-Z0-9_]*)/(\d+)$`)
 
 type c13Fn struct {
 	Name  string
@@ -63,7 +64,6 @@ type c13Fn struct {
 }
 
 func (f c13Fn) String() string { return fmt.Sprintf("%s/%d", f.Name, f.Arity) }
-
 
 func c13Functions(s *fqx.Session) ([]c13Fn, []string, error) {
 	// everything in scope (jq definitions and Go registrations) minus what VANILLA gojq provides
@@ -88,6 +88,13 @@ func c13Functions(s *fqx.Session) ([]c13Fn, []string, error) {
 	if len(vanilla) < 100 {
 		return nil, nil, fmt.Errorf("vanilla builtins: only %d", len(vanilla))
 	}
+	// Go registrations (the property quantifies over ALL functions fq registers in Go, also the
+	// underscore-prefixed ones; jq-defined functions only when public)
+	goRegistered := map[string]bool{}
+	for _, fn := range fqx.Registry().EnvFuncFns {
+		f := fn(s.I)
+		goRegistered[f.Name] = true
+	}
 	var fns []c13Fn
 	var skipped []string
 	seen := map[string]bool{}
@@ -98,7 +105,10 @@ func c13Functions(s *fqx.Session) ([]c13Fn, []string, error) {
 		}
 		seen[n] = true
 		m := c13NameRe.FindStringSubmatch(n)
-		if m == nil || strings.HasPrefix(n, "_") {
+		if m == nil {
+			continue
+		}
+		if strings.HasPrefix(n, "_") && !goRegistered[m[1]] {
 			continue
 		}
 		if why, ok := c13Excluded[m[1]]; ok {
